@@ -44,6 +44,25 @@ pub enum Strategy {
     Script(Vec<usize>),
     /// Keep running the same thread while it is eligible (few context switches).
     Sticky,
+    /// Targeted schedule: each directive runs the allowed threads (round-robin) until a thread
+    /// matching `stop` is about to perform the named step; afterwards fair round-robin.
+    Directed(Vec<Directive>),
+}
+
+/// Thread selector: k-th enrolled thread of a role (0 worker, 1 finality, 2 commit).
+#[derive(Clone, Copy, Debug, PartialEq, Eq)]
+pub enum Sel {
+    All,
+    Role(usize, usize),
+    AllExcept(usize, usize),
+}
+
+#[derive(Clone, Debug)]
+pub struct Directive {
+    pub allowed: Sel,
+    /// stop before granting this step: (site, first argument if constrained)
+    pub stop_site: &'static str,
+    pub stop_arg0: Option<usize>,
 }
 
 #[derive(Clone, Copy, Debug, PartialEq, Eq)]
@@ -93,6 +112,8 @@ struct Inner {
     /// number of completed steps that were not lock-busy probes
     real_steps: u64,
     retrying: Vec<bool>,
+    last_run: Vec<u64>,
+    directive_pos: usize,
 }
 
 pub struct Ctrl {
@@ -100,20 +121,26 @@ pub struct Ctrl {
     cv: Condvar,
 }
 
-/// Sites that do not by themselves witness progress of the block.
+/// Sites that do not by themselves witness progress of the block (everything except an
+/// explicit list of progress sites): used for fairness of the PCT strategy and stall detection.
 fn is_idle_site(site: &str) -> bool {
-    matches!(
+    !matches!(
         site,
-        "spin" |
-            "wait_check1" |
-            "wait_check2" |
-            "wait_park" |
-            "fin_read_vcur" |
-            "vcur_load" |
-            "dep_next_load" |
-            "frontier_scan" |
-            "lock_txstate" |
-            "fin_read_ts"
+        "start" |
+            "end" |
+            "wake" |
+            "exec_begin" |
+            "exec_end" |
+            "exec_result" |
+            "mv_publish" |
+            "val_ts" |
+            "val_done" |
+            "finalize" |
+            "commit_apply" |
+            "cursor_publish" |
+            "abort_store" |
+            "h_call" |
+            "h_ret"
     )
 }
 
@@ -165,6 +192,8 @@ impl Ctrl {
                 record_trace: true,
                 real_steps: 0,
                 retrying: Vec::new(),
+                last_run: Vec::new(),
+                directive_pos: 0,
             }),
             cv: Condvar::new(),
         })
@@ -192,6 +221,17 @@ impl Ctrl {
             steps: g.step_no,
             panicked: g.panicked.clone(),
             roles: g.roles.clone(),
+        }
+    }
+
+    fn selected(g: &Inner, sel: Sel, tid: usize) -> bool {
+        let nth = |role: usize, k: usize| {
+            g.roles.iter().enumerate().filter(|(_, r)| **r == role).map(|(i, _)| i).nth(k)
+        };
+        match sel {
+            Sel::All => true,
+            Sel::Role(r, k) => nth(r, k) == Some(tid),
+            Sel::AllExcept(r, k) => nth(r, k) != Some(tid),
         }
     }
 
@@ -244,16 +284,38 @@ impl Ctrl {
             return;
         }
         if g.step_no >= g.max_steps || g.idle_run > 60_000 {
+            let desc: Vec<String> = g
+                .threads
+                .iter()
+                .enumerate()
+                .map(|(i, t)| {
+                    let last = g.trace.iter().rev().find(|e| e.tid == i).map(|e| format!("{} {:?}", e.site, e.args));
+                    format!("{i}(role {}):{t:?} last={last:?} pending={:?}", g.roles[i], g.pending[i].map(|e| e.site))
+                })
+                .collect();
             g.stall = Some(format!(
-                "livelock: {} steps, {} consecutive idle steps",
-                g.step_no, g.idle_run
+                "livelock: {} steps, {} consecutive idle steps; threads: [{}]; slots: {:?}",
+                g.step_no,
+                g.idle_run,
+                desc.join(" | "),
+                g.slots
             ));
             g.free_run = true;
             g.current = None;
             self.cv.notify_all();
             return;
         }
-        let pick = match &g.strategy {
+        // Fairness valve: after a long run of idle steps hand the processor to the eligible thread
+        // that has waited longest, whatever the strategy says (spinning workers must not starve a
+        // coordinator that could make progress).
+        let fair_pick = if g.idle_run >= 150 &&
+            !matches!(g.strategy, Strategy::Script(_) | Strategy::Directed(_))
+        {
+            eligible.iter().copied().min_by_key(|&t| g.last_run[t])
+        } else {
+            None
+        };
+        let pick = if let Some(t) = fair_pick { t } else { match &g.strategy {
             Strategy::Random => eligible[g.rng.below(eligible.len())],
             Strategy::Sticky => match g.last_tid {
                 Some(t) if eligible.contains(&t) && !g.rng.chance(1, 24) => t,
@@ -279,6 +341,38 @@ impl Ctrl {
                 let prios = &g.priorities;
                 *eligible.iter().max_by_key(|&&t| prios.get(t).copied().unwrap_or(0)).unwrap()
             }
+            Strategy::Directed(directives) => {
+                let mut pick = None;
+                // a directive whose threads only idle (spin / busy locks) has run its course
+                if g.idle_run >= 300 && g.directive_pos < directives.len() {
+                    g.directive_pos += 1;
+                    g.idle_run = 0;
+                }
+                while g.directive_pos < directives.len() {
+                    let d = &directives[g.directive_pos];
+                    // is some allowed thread about to perform the stop step?
+                    let hit = eligible.iter().any(|&t| {
+                        Self::selected(g, d.allowed, t) &&
+                            g.pending[t].is_some_and(|e| {
+                                e.site == d.stop_site && d.stop_arg0.is_none_or(|a| e.args[0] == a)
+                            })
+                    });
+                    if hit {
+                        g.directive_pos += 1;
+                        continue;
+                    }
+                    let allowed: Vec<usize> =
+                        eligible.iter().copied().filter(|&t| Self::selected(g, d.allowed, t)).collect();
+                    if allowed.is_empty() {
+                        // the directive cannot be followed (nothing allowed can move): give up on it
+                        g.directive_pos += 1;
+                        continue;
+                    }
+                    pick = allowed.iter().copied().min_by_key(|&t| g.last_run[t]);
+                    break;
+                }
+                pick.unwrap_or_else(|| *eligible.iter().min_by_key(|&&t| g.last_run[t]).unwrap())
+            }
             Strategy::Script(script) => {
                 let mut pick = None;
                 if g.script_pos < script.len() {
@@ -294,7 +388,8 @@ impl Ctrl {
                     *eligible.iter().find(|&&t| t > last).unwrap_or(&eligible[0])
                 })
             }
-        };
+        } };
+        g.last_run[pick] = g.step_no + 1;
         g.choices.push(pick);
         g.last_tid = Some(pick);
         if let TState::Parked(slot) = g.threads[pick] {
@@ -339,6 +434,7 @@ impl Controller for Ctrl {
         let tid = g.threads.len();
         g.threads.push(TState::Waiting);
         g.retrying.push(false);
+        g.last_run.push(0);
         g.roles.push(role);
         g.pending.push(Some(Event { site: "start", args: [role, 0, 0, 0] }));
         if g.current.is_none() {
